@@ -69,6 +69,8 @@ def while_invariant(I, st, s, fr):
 def for_invariant(I, st, s, itv, fr):
     """for x in <heap sequence of symbolic length> with a sidecar invariant over ghost index `_i`."""
     spec, ordn = _inv_for(I, fr, s)
+    if spec["opts"].get("iter") in ("dict-keys", "opaque"):
+        return opaque_iteration(I, st, s, itv, fr, spec, ordn)
     if not isinstance(itv, Sym):
         raise Unsupported(f"for over {itv!r}")
     t = itv.t
@@ -136,3 +138,57 @@ def exec_with(I, st, s, fr):
                 return fn(I, s2, s, cm, fr)
         raise Unsupported(f"with over {cm!r}")
     return I.ev(st, item.context_expr, fr, got)
+
+
+def _havoc_objects(I, st, names):
+    """forget the content of the dict/list objects held by these locals (only their own entries of the container arrays)"""
+    for nm in names:
+        v = st.env.get(nm)
+        if not isinstance(v, Sym):
+            raise Unsupported(f"havoc_objects: local {nm} is not a heap object here")
+        loc = get_loc(v.t)
+        st.write(HAS, loc, z3.Const(I.w.fresh("hv_has"), z3.ArraySort(V, z3.BoolSort())))
+        st.write(MAP, loc, z3.Const(I.w.fresh("hv_map"), z3.ArraySort(V, V)))
+        n = z3.Int(I.w.fresh("hv_len"))
+        st.fact(n >= 0)
+        st.write(LEN, loc, n)
+
+
+def opaque_iteration(I, st, s, itv, fr, spec, ordn):
+    """`for x in <mapping keys / iterable we know nothing about>`: the body runs an unknown number of times on items
+    we know nothing about (keys of a dict: members of it).  Loop-assigned locals and the listed objects are havocked,
+    the invariant is assumed at the head and must be re-established by the body."""
+    B.note(I, "for-loop over an opaque iterable: unknown number of iterations over unconstrained items (invariant-based)")
+    env = lambda s_: dict(s_.env)
+    for nm, expr in spec["inv"]:
+        I.oblige(st, f"loop{ordn}:init:{nm}", I.spec_bool(st, expr, env(st), old=st.old), kind="inv")
+    head = st.fork()
+    _havoc_for_loop(I, head, s.body + [ast.Assign(targets=[s.target], value=ast.Constant(value=None))], fr, spec)
+    _havoc_objects(I, head, spec["opts"].get("havoc_objects", []))
+    for nm, expr in spec["inv"]:
+        head.pc.append(I.spec_bool(head, expr, env(head), old=head.old))
+    outs = []
+    # exit (zero or all iterations done)
+    ex = head.fork()
+    outs += I.exec_block(ex, s.orelse, fr) if s.orelse else [Out(ex, "normal")]
+    # one more iteration on an arbitrary item
+    item = I.fresh_v("item")
+    if spec["opts"].get("iter") == "dict-keys" and isinstance(itv, Sym):
+        head.fact(z3.Select(head.read(HAS, get_loc(itv.t)), item.t))
+        if spec["opts"].get("key_type") == "str" or True:
+            pass
+    kt = spec["opts"].get("item_type")
+    if kt == "str":
+        head.fact(is_str(item.t))
+    for a in I.assign(head, s.target, item, fr):
+        if a.kind != "normal":
+            outs.append(a); continue
+        for o in I.exec_block(a.st, s.body, fr):
+            if o.kind in ("normal", "continue"):
+                for nm, expr in spec["inv"]:
+                    I.oblige(o.st, f"loop{ordn}:preserve:{nm}", I.spec_bool(o.st, expr, env(o.st), old=o.st.old), kind="inv")
+            elif o.kind == "break":
+                outs.append(Out(o.st, "normal"))
+            else:
+                outs.append(o)
+    return outs
